@@ -144,7 +144,10 @@ def comp(ast, env):
         return t(body, envd)
     if k == "ptask":   # partial application, then call
         body, binds, opts = ast[1], ast[2], ast[3]
-        return _pick(opts).partial(body)({n: comp(b, env) for n, b in binds.items()})
+        pt = _pick(opts).partial(body)
+        for c in opts.get("pctx", []):      # update_context chained AFTER the partial application
+            pt = pt.update_context(c)
+        return pt({n: comp(b, env) for n, b in binds.items()})
     if k == "nout":
         body, binds, n, i = ast[1], ast[2], ast[3], ast[4]
         e = node.options(nout=n)(body, {nm: comp(b, env) for nm, b in binds.items()})
